@@ -1,19 +1,33 @@
-// Stub of class colvar as seen by biases: every mutator forwards to a contract-specified, call-logging C function.
+// Stub of class colvar as seen by biases: every query/mutator forwards to a contract-specified, call-logging C
+// function (specs/common/colvar_contract.h).  Scalar colvarvalue stand-in.
 #ifndef CVS_COLVAR_STUB_H
 #define CVS_COLVAR_STUB_H
 #include <colvarvalue_scalar.h>
 extern "C" void k_add_bias_force(int cv_tag, double f);
 extern "C" void k_add_bias_force_actual_value(int cv_tag, double f);
 extern "C" double k_cv_value(int cv_tag);
+extern "C" double k_cv_actual_value(int cv_tag);
+extern "C" double k_cv_dist2(int cv_tag, double x1, double x2);
+extern "C" double k_cv_dist2_lgrad(int cv_tag, double x1, double x2);
+extern "C" double k_cv_wrap(int cv_tag, double x);
+extern "C" int k_cv_is_enabled(int cv_tag, int f);
+extern "C" double k_cvv_dist2(double x1, double x2);        // colvarvalue's own (non-periodic) metric
+extern "C" double k_cvv_dist2_grad(double x1, double x2);
+extern "C" double k_mul(double a, double b);
+// products involving a colvarvalue are uninterpreted and logged (operand provenance, no floating-point reasoning)
+inline colvarvalue operator*(cvm::real const &a, colvarvalue const &x) { double r = k_mul(a, x.real_value); colvarvalue v(r); return v; }
+inline colvarvalue operator*(colvarvalue const &x, cvm::real const &a) { double r = k_mul(x.real_value, a); colvarvalue v(r); return v; }
+inline cvm::real operator*(colvarvalue const &x, colvarvalue const &y) { return k_mul(x.real_value, y.real_value); }
 struct colvar {
   int tag;
+  cvm::real width;
+  bool is_enabled(int f) const { return k_cv_is_enabled(tag, f) != 0; }
   void add_bias_force(colvarvalue const &force) { k_add_bias_force(tag, force.real_value); }
   void add_bias_force_actual_value(colvarvalue const &force) { k_add_bias_force_actual_value(tag, force.real_value); }
   colvarvalue value() const { double v = k_cv_value(tag); colvarvalue r(v); return r; }
+  colvarvalue actual_value() const { double v = k_cv_actual_value(tag); colvarvalue r(v); return r; }
+  cvm::real dist2(colvarvalue const &x1, colvarvalue const &x2) const { return k_cv_dist2(tag, x1.real_value, x2.real_value); }
+  colvarvalue dist2_lgrad(colvarvalue const &x1, colvarvalue const &x2) const { double v = k_cv_dist2_lgrad(tag, x1.real_value, x2.real_value); colvarvalue r(v); return r; }
+  void wrap(colvarvalue &x) const { x.real_value = k_cv_wrap(tag, x.real_value); }
 };
-// products involving a colvarvalue are uninterpreted and logged (operand provenance, no floating-point reasoning):
-// k_mul returns an unconstrained value and records (a, b, result) in the ghost multiplication log
-extern "C" double k_mul(double a, double b);
-inline colvarvalue operator*(cvm::real const &a, colvarvalue const &x) { double r = k_mul(a, x.real_value); colvarvalue v(r); return v; }
-inline colvarvalue operator*(colvarvalue const &x, cvm::real const &a) { double r = k_mul(x.real_value, a); colvarvalue v(r); return v; }
 #endif
